@@ -32,6 +32,7 @@ type Profile struct {
 	FeeModes    []int
 	DupSigners  bool
 	GovKinds    []string // which modules' parameters governance changes (default: all four)
+	PCheck      int      // percent of txs that are submitted to CheckTx only (mempool admission)
 }
 
 // rapid's integer generators are deliberately biased towards small values and
@@ -439,13 +440,23 @@ func GenScenario(t *rapid.T, p *Profile) *Scenario {
 				kind := pickKind(t, p.Weights)
 				tx.Ops = append(tx.Ops, GenOp(t, p, kind, nAcc))
 			}
-			tx.Fee.Mode = pick(t, feeModes, "feeMode")
+			if pct(t, p.PCheck, "checkOnly") {
+				tx.Check = true
+				tx.Fee.Mode = pick(t, feeModes, "feeMode")
+				tx.Fee.Amt = pick(t, []string{"1", "1", "2", "1000"}, "feeDelta")
+				tx.Fee.Extra = pick(t, []string{"1", "5", "1000"}, "feeExtra")
+			} else if p.PCheck == 0 {
+				tx.Fee.Mode = pick(t, feeModes, "feeMode")
+			}
 			if pct(t, p.PFault, "fault") {
 				tx.Fault = uniRange(t, 1, 4, "faultKind")
 			}
 			if pct(t, p.PExec, "exec") {
 				tx.Wrap = pick(t, []int{WrapExec, WrapExec, WrapExec, WrapExec2}, "wrap")
 				tx.Grantee = -1
+				if !tx.Check && uni(t, 2, "execNoFee") == 1 {
+					tx.Fee.Mode = FeeNone // nested operations are not fee-checked; a real submitter would not pay
+				}
 				if oneIn(t, 5, "anyGrantee") {
 					tx.Grantee = uniRange(t, 0, nAcc-1, "grantee")
 				}
